@@ -296,6 +296,11 @@ func c10Request(raw string) (*http.Request, error) {
 	return http.ReadRequest(bufio.NewReader(strings.NewReader(raw)))
 }
 
+// c10HangBound is a progress bound only (observed latency is below 1 ms): a
+// request that misses it decides nothing by itself (reported as a problem,
+// i.e. inconclusive) and ends its history / round.
+const c10HangBound = 20 * time.Second
+
 // c10Serve calls the handler on a bare goroutine, as the agent does.
 func c10Serve(h http.Handler, rec http.ResponseWriter, req *http.Request) (panicked string, hung bool) {
 	done := make(chan string, 1)
@@ -305,7 +310,7 @@ func c10Serve(h http.Handler, rec http.ResponseWriter, req *http.Request) (panic
 	select {
 	case p := <-done:
 		return p, false
-	case <-time.After(60 * time.Second):
+	case <-time.After(c10HangBound):
 		return "", true
 	}
 }
@@ -819,6 +824,12 @@ func (s *c10Seq) step(n int) bool {
 	rec := newC10Recorder()
 	t0 := time.Now()
 	panicked, hung := c10Serve(s.handler, rec, req)
+	if hung {
+		// the handler goroutine may still be running: do not touch what it writes
+		s.trace = append(s.trace, st)
+		s.res.Problems = append(s.res.Problems, fmt.Sprintf("step %d: handler did not return within 20s", n))
+		return false
+	}
 	st.BackendCalled = s.cur.called
 	st.BackendSaw = s.cur.saw
 	if rec.final != nil {
@@ -826,10 +837,6 @@ func (s *c10Seq) step(n int) bool {
 	}
 	st.ClientStatus = rec.status
 	s.trace = append(s.trace, st)
-	if hung {
-		s.res.Problems = append(s.res.Problems, fmt.Sprintf("step %d: handler did not return within 60s", n))
-		return false
-	}
 	if panicked != "" {
 		s.violate(n, "handler-panic", fmt.Sprintf("step %d: the session handler panicked (in the agent this goroutine is bare: process exit): %s", n, panicked))
 		return false
@@ -1033,6 +1040,7 @@ type c10CReq struct {
 	clientSet                   []string
 	panicked                    string
 	hung                        bool
+	skipped                     bool
 }
 
 type c10RegIn struct {
@@ -1049,6 +1057,7 @@ type c10Round struct {
 	reqs     []*c10CReq
 	inFlight int32
 	maxIn    int32
+	aborted  int32 // a request hung: the rest of the round is skipped
 	res      *C10Result
 	mu       sync.Mutex
 }
@@ -1095,6 +1104,10 @@ func (rd *c10Round) backend(w http.ResponseWriter, r *http.Request) {
 
 // do runs one request on the calling goroutine's behalf (on its own bare goroutine).
 func (rd *c10Round) do(q *c10CReq) {
+	if atomic.LoadInt32(&rd.aborted) != 0 {
+		q.skipped = true
+		return
+	}
 	var raw strings.Builder
 	fmt.Fprintf(&raw, "GET %s HTTP/1.1\r\nHost: %s\r\nX-C10-Req: %d\r\n", q.path, rd.host, q.id)
 	own := fmt.Sprintf("own=g%dr%d", q.g, q.id)
@@ -1117,6 +1130,9 @@ func (rd *c10Round) do(q *c10CReq) {
 	q.tCall = rd.now()
 	q.panicked, q.hung = c10Serve(rd.handler, rec, req)
 	q.tRet = rd.now()
+	if q.hung {
+		atomic.StoreInt32(&rd.aborted, 1)
+	}
 	q.returned = !q.hung && q.panicked == ""
 	if rec.final != nil && !q.hung {
 		q.clientSet = append([]string(nil), rec.final["Set-Cookie"]...)
@@ -1399,8 +1415,11 @@ func (rd *c10Round) judge(forced [][3]*c10CReq, final []*c10CReq) {
 	}
 	sawMap := make([]map[string]string, len(rd.reqs))
 	for _, q := range rd.reqs {
+		if q.skipped {
+			continue
+		}
 		if q.hung {
-			res.Problems = append(res.Problems, fmt.Sprintf("request %d did not return within 60s", q.id))
+			res.Problems = append(res.Problems, fmt.Sprintf("request %d did not return within 20s", q.id))
 			continue
 		}
 		if q.panicked != "" {
@@ -1469,7 +1488,7 @@ func (rd *c10Round) judge(forced [][3]*c10CReq, final []*c10CReq) {
 		}
 		var es []ent
 		for _, q := range rd.reqs {
-			if q.entered && q.g < c.Goroutines {
+			if !q.hung && !q.skipped && q.entered && q.g < c.Goroutines {
 				es = append(es, ent{q.id, q.tEnter})
 			}
 		}
@@ -1481,7 +1500,8 @@ func (rd *c10Round) judge(forced [][3]*c10CReq, final []*c10CReq) {
 		}
 		res.OrderSig = strconv.FormatUint(h, 16)
 	}
-	if c.Evict {
+	if c.Evict || atomic.LoadInt32(&rd.aborted) != 0 {
+		// eviction rounds assert safety only; after a hung request the history is incomplete
 		res.PorcVerdict = "skipped"
 		return
 	}
